@@ -13,6 +13,7 @@ import (
 	"os"
 	"path/filepath"
 	"regexp"
+	rsyntax "regexp/syntax"
 	"sort"
 	"strconv"
 	"strings"
@@ -448,6 +449,50 @@ func patternAlphabet(pats ...string) []rune {
 
 var specials = []rune{foreignRune, '\n', '\v'}
 
+// literalAlphabet: the runes a pattern is about, read off Go's own parse tree (literals, bounds and
+// neighbours of class ranges), in order of appearance
+func literalAlphabet(pats ...string) []rune {
+	seen := map[rune]bool{}
+	var out []rune
+	add := func(r rune) {
+		if r >= 0 && r <= 0x10FFFF && !seen[r] && utf8.ValidRune(r) {
+			seen[r] = true
+			out = append(out, r)
+		}
+	}
+	var walk func(re *rsyntax.Regexp)
+	walk = func(re *rsyntax.Regexp) {
+		switch re.Op {
+		case rsyntax.OpLiteral:
+			for _, r := range re.Rune {
+				add(r)
+			}
+		case rsyntax.OpCharClass:
+			for i := 0; i+1 < len(re.Rune) && i < 12; i += 2 {
+				lo, hi := re.Rune[i], re.Rune[i+1]
+				if lo > 0 {
+					add(lo)
+				}
+				if hi < 0x10FFFF {
+					add(hi)
+				}
+				if lo+1 < hi && lo > 0 {
+					add(lo + 1)
+				}
+			}
+		}
+		for _, sub := range re.Sub {
+			walk(sub)
+		}
+	}
+	for _, p := range pats {
+		if re, err := rsyntax.Parse(p, rsyntax.Perl); err == nil {
+			walk(re)
+		}
+	}
+	return out
+}
+
 type subjectSet struct {
 	alpha []rune
 	list  []string
@@ -539,6 +584,37 @@ func compareRegexps(before, after string, maxLen int, budget int, rng interface{
 			return d, n
 		}
 	}
+	size := func(k, l int) int {
+		t, p := 0, 1
+		for i := 0; i <= l; i++ {
+			t += p
+			p *= k
+		}
+		return t
+	}
+	// first: exhaustively over the runes the two expressions are about
+	{
+		sem := literalAlphabet(before, after)
+		if len(sem) > 8 {
+			sem = sem[:8]
+		}
+		for _, r := range specials {
+			dup := false
+			for _, x := range sem {
+				dup = dup || x == r
+			}
+			if !dup {
+				sem = append(sem, r)
+			}
+		}
+		l := maxLen
+		for l > 1 && size(len(sem), l) > budget {
+			l--
+		}
+		if !allStrings(sem, l, try) {
+			return d, n
+		}
+	}
 	alpha := append(patternAlphabet(before, after), specials...)
 	// dedupe specials
 	{
@@ -551,14 +627,6 @@ func compareRegexps(before, after string, maxLen int, budget int, rng interface{
 			}
 		}
 		alpha = a2
-	}
-	size := func(k, l int) int {
-		t, p := 0, 1
-		for i := 0; i <= l; i++ {
-			t += p
-			p *= k
-		}
-		return t
 	}
 	if size(len(alpha), maxLen) <= budget {
 		allStrings(alpha, maxLen, try)
@@ -679,7 +747,8 @@ var (
 	reBraceDigits     = regexp.MustCompile(`\{[0-9]+(,[0-9]*)?\}`)
 	rePosixSpace      = regexp.MustCompile(`\[\^?\[:\^?space:\]\]`)
 	reOctalJoin       = regexp.MustCompile(`\\[0-7]{1,2}(\(\?:[0-7]\)|\[[0-7]\]|\{1\}[0-7]|.\{0\}[0-7])`)
-	reLitAlt          = regexp.MustCompile(`([^|()\[\]\\*+?{}.^$]+)\|([^|()\[\]\\*+?{}.^$]+)`)
+	reUngreedyOn      = regexp.MustCompile(`\(\?[imsU]*U[imsU-]*[:)]`)
+	reLitAlt          = regexp.MustCompile(`([^|()\[\\*+?.^$]+)\|([^|()\[\\*+?.^$]+)`)
 	reEscapedInBraces = regexp.MustCompile(`\{[0-9]+\\,[0-9]*\}`)
 	reUnwrapRepeat    = regexp.MustCompile(`(\[\{\]|\(\?:\{\))[0-9]|\{[0-9]+(\[,\]|\(\?:,\))|\{[0-9]+,?[0-9]*(\[\}\]|\(\?:\}\))|\{[0-9,]*(\[[0-9]\]|\(\?:[0-9]\))|\{[0-9,]*\{[01]\}[0-9,]*\}`)
 	reFlagGroup       = regexp.MustCompile(`\(\?[imsU-]+:`)
@@ -755,6 +824,9 @@ func classify(pat, rw string, d *diff) string {
 		return "posix-space-class"
 	case has(pat, "[][]") && has(rw, `\]\[`):
 		return "class-brackets-to-two-runes"
+	}
+	if d.Kind == "match" && reUngreedyOn.MatchString(pat) && strings.Count(rw, "|") < strings.Count(pat, "|") && has(rw, "?") {
+		return "alt-factoring-under-ungreedy-flag"
 	}
 	if d.Kind == "match" && has(pat, ")*") && has(rw, ")+") {
 		return "merge-of-nullable-group"
@@ -1226,7 +1298,7 @@ var corpus = []string{
 	`(?:(a))(?:(a))`, `(?:(a))(?:(a))*`, `a(?:{)2}`, `(?:(a)b){1}`, `(a|b){0,1}?`, `(?i)[k][K]`, `(?s).{1,}`, `(?U)a{0,}b`,
 	`(|a)*`, `(|a)+`, `(a*)*b`, `(a*)+b`, `(a|b*)*c`, `(?:a*|b)*?c`, `(a??)*b`, `^a$|\bb\B`, `(?m)^a$`, `\Qa.b\E+`,
 	`a{2,3}?b`, `(a){2}`, `(a)|b`, `(?P<n>a)(b)?`, `[^a]`, `[a-c]`, `[a-a]`, `[a-b]`, `x\&y`, `\.\.`, `a    b`,
-	`aa|aaa`, `aaa|aa`, `❤❤|❤❤❤`, `xx|xxx`, `(?i:a)[b]`, `(?s:.)\.\.`, `(|a)*b{1}`, `a|`, `(?:s*?b*)(?:s*?b*)*`, `s(?i){0}`, `\0{1}0`, `[a-b-*]`, `(?:❤x|❤xb)`,
+	`(?U:abc|ab)`, `(?U)xab|ab`, `aa|aaa`, `aaa|aa`, `❤❤|❤❤❤`, `xx|xxx`, `(?i:a)[b]`, `(?s:.)\.\.`, `(|a)*b{1}`, `a|`, `(?:s*?b*)(?:s*?b*)*`, `s(?i){0}`, `\0{1}0`, `[a-b-*]`, `(?:❤x|❤xb)`,
 	`(?:a*b*)*c`, `(a*?)*b`, `(?:a?)*?b`, `((a*)+)+`, `(a*|b)+?c`, `(a??b??)*c`, `(?:(a)|b*)*c`, `(a*){2,3}b`, `(a*){2,}b`, `(a?){3}`,
 	`(a|){2,}?b`, `(?:a|(b))+`, `(?:(a)|(b))*`, `(a)*?(b)??`, `(?i)k+|ſ`, `(?i)[^k]`, `(?i)\W`, `(?s).\n`, `(?m)^$`, `(?U)a+?`, `(?U:a*)a`,
 	`....`, `aaaaa`, `\d\d\d`, `[ab][ab]`, `(?:ab)(?:ab)`, `[^\s]`, `[^\S]`, `[0-9]`, `[^0-9]`, `(?:a|b|c)`,
